@@ -10,18 +10,21 @@ NAMESPACE = 'VL.C05'
 LEAN_MODULES = ['VotelibProofs.Props.C05']
 GEN_MODULES = []
 REQUIRED = ['cw_copeland', 'cw_minimax_wv', 'cw_minimax_margins', 'cw_schulze', 'cw_benham', 'cw_tideman',
-            'copeland_in_smith',
+            'cw_rankedpairs_partial', 'cw_kemeny_partial', 'kemeny_is_argmax', 'kemeny_refusal',
+            'copeland_in_smith', 'copeland_defining', 'minimax_worst_counterscore',
             'no_candidate_dropped_copeland', 'no_candidate_dropped_minimax', 'no_candidate_dropped_schulze',
             'cw_rankedpairs_witness', 'cw_kemeny_witness', 'rankedpairs_dropped_witness', 'minimax_never_loser_witness',
             'benham_elimination_tie_witness', 'tideman_elimination_tie_witness', 'tideman_last_tie_witness']
-UNPROVED = ['cw_rankedpairs_{wv,margins,pwo}: FALSE as stated on the current code (cw_rankedpairs_witness: refusal although a '
-            'Condorcet winner exists); the partial form "whenever ranked pairs answers for one seat it answers [w]" is not proved',
-            'cw_kemeny: FALSE as stated on the current code (cw_kemeny_witness: refusal when a lower place ties)',
+UNPROVED = ['cw_rankedpairs (rankedPairs sc v 1 = ok [w]): FALSE as stated on the current code (cw_rankedpairs_witness: refusal '
+            'although a Condorcet winner exists); proved instead: cw_rankedpairs_partial (whenever it answers, it answers [w])',
+            'cw_kemeny (kemenyYoung v 1 = ok [w]): FALSE as stated on the current code (cw_kemeny_witness: refusal when a lower '
+            'place ties); proved instead: cw_kemeny_partial (elects exactly w or refuses with NotImplementedError)',
             'lockPairs_acyclic', 'widestPaths_correct (value = max over paths of min edge)',
             'schulze_in_smith', 'rankedpairs_in_smith', 'kemeny_in_smith', 'benham_in_smith', 'tideman_in_smith',
             'minimax_defining (worst defeat over ALL opponents, absent pair = 0:0): FALSE on sparse dictionaries '
-            '(minimax_never_loser_witness)',
-            'rankedpairs no_candidate_dropped: FALSE (rankedpairs_dropped_witness)']
+            '(minimax_never_loser_witness); proved instead: minimax_worst_counterscore (maximum over the pairs present)',
+            'rankedpairs no_candidate_dropped: FALSE (rankedpairs_dropped_witness)',
+            'copeland second-order defining computation (only the first-order scores are characterised: copeland_defining)']
 REQUIRED_COUNTERS = ['has_cw', 'sparse_never_loser', 'all_tied', 'cycle', 'from_ranked', 'uab_true', 'uab_false',
                      'n_all', 'n_one', 'hybrid', 'second_order_used', 'fraction', 'missing_pair']
 RULE = ('pairwise dictionaries over 2-5 candidates (6 occasionally) as in C06 (sparse / dense / tied / zero-count entries, '
@@ -88,7 +91,7 @@ def _pairwise_cases(rng, votes, tags, evals=None, ns=None):
 
 
 def _gen(rng, tier):
-    N = 130 if tier == 'quick' else 2500
+    N = 300 if tier == 'quick' else 2500
     for ent, tag in DIRECTED:
         m = 1 + max(max(a, b) for a, b, _ in ent)
         perm = list(range(m))
@@ -463,8 +466,10 @@ LEVEL_TEXT = ('All ten registered Condorcet evaluators, the three pairwise win s
               'plumbing they use) are modelled line for line and tied to /repo by a differential correspondence on every check plus an '
               'oracle of the property clauses on the implementation.  Proved for all well-formed pairwise dictionaries (no size bound): '
               'Copeland (both variants), minimax by winning votes and by margins, Schulze, Benham and Tideman alternative elect exactly '
-              'the Condorcet winner for one seat; every candidate Copeland names for one seat lies in the Smith set; Copeland, Schulze '
-              'and minimax list every candidate when there are as many seats as candidates.  Where the current code does not meet the '
+              'the Condorcet winner for one seat; ranked pairs (all three scorers) and Kemeny-Young never elect anybody else (they '
+              'answer [w] or refuse); Kemeny-Young answers only with the head of the unique best order; every candidate Copeland names '
+              'for one seat lies in the Smith set; Copeland ranks by wins minus losses; Copeland, Schulze and minimax list every '
+              'candidate when there are as many seats as candidates.  Where the current code does not meet the '
               'property (ranked pairs and Kemeny-Young refusals with a Condorcet winner, ranked pairs dropping candidates, minimax on '
               'sparse dictionaries, hybrids crashing on elimination ties) the negation is proved on a concrete witness and the defect '
               'is a listed open finding.')
